@@ -70,5 +70,10 @@ fixed("C22","8aef522","silently-lost * via function-modifier inject_at","special
 fixed("C22","b1c6560","silently-lost empty-block-alt on * via *","empty_block_alt on a non-block instruction was accepted and silently ignored")
 known("C22","silently-lost semantic-after on br*fn-label via *","a semantic-after injection on a branch whose only target is the function body label is accepted by every API path and absent from the encoded function (same cause as the C20 finding: its body is scheduled after the final end, where after-code is dropped)",
       {"program":"[Block [...], If B [Br 1]] (br to the function label)","mode":"semantic-after","api":"any of the 9 paths"})
+
+for m in ["SemanticAfterBlock","SemanticAfterBr","BlockEntry","BlockExit","BlockAlt"]:
+    known("C23",f"tagged-item no-record probe {m}","the tag of a special-mode probe is not carried through the resolution into before/after/alternate code: the report contains the resolved pieces with empty tags and no record with the probe's tag",
+          {"history":f"[Probe {m} with tag [0xA0,0x5A]] through iterator.append_to_tag or modifier.append_tag_at","then":"pull_side_effects()"})
+fixed("C04","2638d18","hash-order-dependent encoded-bytes at ir/module/module_types.rs @dup-types*","with two structurally identical types in the module, add_func_type returned either index depending on HashMap iteration order (ModuleTypes::new), so the encoded bytes depended on the process hash seed")
 json.dump(F,open("/verif/known_findings.json","w"),indent=1)
 print(len(F),"entries")
